@@ -29,7 +29,14 @@ def gen_call(rnd, integer):
             r = [w] + rnd.sample(cs[1:], rnd.randint(0, n - 1))
         else:
             r = rnd.sample(cs, rnd.randint(1, n))
-        wt = F(rnd.randint(1, 4)) if integer else gen.weight(rnd, rnd.choice(["int", "rat"]))
+        if integer:
+            wt = F(rnd.randint(1, 4))
+        elif rnd.random() < 0.25:
+            # awkward rationals / large electorates: transfer values whose reduced denominator exceeds 10^6
+            wt = rnd.choice([F(700001, 1009), F(rnd.randint(1, 10 ** 7), rnd.choice([997, 1009, 7919])),
+                             F(rnd.randint(10 ** 6, 10 ** 7)), F(5, 7) ** rnd.randint(3, 9)])
+        else:
+            wt = gen.weight(rnd, rnd.choice(["int", "rat"]))
         bl.append(canon.spec_ballot(r=[[c] for c in r], w=wt, id="x%d" % len(bl) if rnd.random() < 0.15 else None))
     if rnd.random() < 0.3 and bl:
         bl.append(dict(rnd.choice(bl)))  # duplicate
